@@ -114,8 +114,10 @@ PLANS["kill-restart-early"] = P(
 # the output of a job of an earlier experiment of the same program used again without submitting that job again (C07: a
 # failure that is only "by dependency" still makes the experiment fail)
 PLANS["reuse-failed"] = P({"a": {"codes": [1]}, "b": {"deps": {"a": "direct"}}, "c": {}},
-                          submit_all("a") + [["restart"], ["submit", "b"], ["submit", "c"], ["wait"]])
-PLANS["reuse-done"] = P({"a": {}, "b": {"deps": {"a": "list"}}}, submit_all("a") + [["restart"], ["submit", "b"], ["wait"]])
+                          submit_all("a") + [["newxp"], ["submit", "b"], ["submit", "c"], ["wait"]])
+PLANS["reuse-done"] = P({"a": {}, "b": {"deps": {"a": "list"}}}, submit_all("a") + [["newxp"], ["submit", "b"], ["wait"]])
+PLANS["reuse-again"] = P({"a": {"codes": [1, 0]}, "b": {"deps": {"a": "direct"}}}, submit_all("a") + [["newxp"], ["submit", "a"], ["submit", "b"], ["wait"]])
+PLANS["reuse-mixed"] = P({"a": {"codes": [1]}, "b": {"deps": {"a": "dict"}}, "c": {}}, submit_all("ac") + [["newxp"], ["submit", "c"], ["wait"], ["newxp"], ["submit", "b"], ["wait"]])
 
 # duplicates of a job that is being adopted (its state must never look "failed" to a later submission)
 PLANS["kill-restart-dup"] = P({"a": {}}, [["submit", "a"], ["kill"], ["restart"], ["submit", "a"], ["submit", "a"], ["submit", "a"], ["wait"]])
